@@ -162,6 +162,15 @@ def build_lib(san=True):
     if os.path.exists(lib):
         os.utime(d)
         return lib
+    if COV:      # built in place: one builder at a time
+        with locked("covlib-%s-%s" % (tag, h)):
+            if os.path.exists(lib):
+                return lib
+            return _build_lib_at(san, d, lib, tag)
+    return _build_lib_at(san, d, lib, tag)
+
+
+def _build_lib_at(san, d, lib, tag):
     # keep the 6 most recently used library builds of this flavour
     if os.path.isdir(BUILD):
         def _mt(n):
